@@ -11,10 +11,10 @@ pub fn prop() -> Prop {
     Prop {
         id: "C08",
         level: "model_checking",
-        rule: "all streams of <=4 (thorough <=6) rows {k,v,id} over the keys {a,b,c,absent} (ids make tied rows distinguishable) plus every stream of <=3 rows repeated cyclically to 17 and 40 rows, and streams of 257 and 1030 rows (S,T around 255..257 and the end) x 14 pipelines (none; sort on selected names; a selection under which rows repeat; 1,2,3 sort keys with ties in both directions; unique; unique+sort on a selected name; filter; filter+sort; split; split+sort) x {no grouping, --group-by, --merge} x S in 0..3 (thorough 0..6; long: 0,1,5,16,17,39,40,41) x T in {absent,0..3} (thorough 0..6; long: 0,1,5,16,17,40,41); for half of the (S,T) the same input is also given as two and three files; non-trivial = the cut S+T falls inside the unlimited result and a tie straddles it, or a grouping stage follows the limiter; distinct by construction; streams of 2..3 (thorough 4) rows over 8 sort keys of other types (objects and arrays that differ only in member order, 1 and 1.0, null, a string) through every sorting pipeline",
+        rule: "all streams of <=4 (thorough <=6) rows {k,v,id} over the keys {a,b,c,absent} (ids make tied rows distinguishable) plus every stream of <=3 rows repeated cyclically to 17 and 40 rows, and streams of 257 and 1030 rows (S,T around 255..257 and the end) x 14 pipelines (none; sort on selected names; a selection under which rows repeat; 1,2,3 sort keys with ties in both directions; unique; unique+sort on a selected name; filter; filter+sort; split; split+sort) x {no grouping, --group-by, --merge} x S in 0..3 (thorough 0..6; long: 0,1,5,16,17,39,40,41) x T in {absent,0..3} (thorough 0..6; long: 0,1,5,16,17,40,41); for half of the (S,T) the same input is also given as two and three files; non-trivial = the cut S+T falls inside the unlimited result and a tie straddles it, or a grouping stage follows the limiter; distinct by construction; streams of 2..3 (thorough 4) rows over 8 sort keys of other types (objects and arrays that differ only in member order, 1 and 1.0, null, a string) through every sorting pipeline; 10 (S,T) pairs at the edge of the 64-bit range (2^64-1 alone and together, sums that do not fit) through every pipeline",
         explanation: "differential: the rows R of the same pipeline without --skip/--take (and without grouping) are obtained from the implementation; with the limits the output must be exactly R[S..S+T), and with grouping the single collection built from exactly those rows; every case is also compared with the reference pipeline (stable multi-key sort, first key most significant)",
         assumptions: COMMON_ASSUMPTIONS.to_vec(),
-        guards: vec!["sort-keys-that-are-objects", "file-without-values-between-files", "command-line-respelled", "input-spread-over-files", "hundreds-of-rows", "cut-inside-a-tie", "limiter-before-grouper", "secondary-key-with-take", "take-zero", "skip-beyond-end", "more-rows-than-skip-plus-take-under-sort"],
+        guards: vec!["skip-plus-take-beyond-64-bits", "sort-keys-that-are-objects", "file-without-values-between-files", "command-line-respelled", "input-spread-over-files", "hundreds-of-rows", "cut-inside-a-tie", "limiter-before-grouper", "secondary-key-with-take", "take-zero", "skip-beyond-end", "more-rows-than-skip-plus-take-under-sort"],
         budget_s: (100, 2400),
         single_worker: false,
         run,
@@ -278,6 +278,26 @@ fn run(ctx: &mut Ctx) {
             }
             ctx.level_done(&format!("streams-of-{len}-rows-with-keys-of-other-types"));
         }
+    }
+    // option values at the edge of their documented range: S and T up to 2^64-1, alone and together (their sum does not
+    // fit in 64 bits)
+    {
+        const MAX: u64 = u64::MAX;
+        let edge: [(u64, Option<u64>); 10] = [(1, Some(MAX)), (MAX, Some(1)), (MAX, Some(MAX)), (0, Some(MAX)), (MAX, None), (1 << 63, Some(1 << 63)), (MAX - 1, Some(2)), (2, Some(MAX - 1)), (1, Some(MAX - 1)), (3, Some(1 << 32))];
+        for (ri, idx) in [vec![0usize, 1, 0, 2, 3], vec![2, 2, 1], vec![]].iter().enumerate() {
+            let rows = pipe::rows_from(&ks, idx);
+            for pl in &pls {
+                if !ctx.mine() {
+                    continue;
+                }
+                for (s, t) in edge {
+                    ctx.guard("skip-plus-take-beyond-64-bits");
+                    explore(ctx, pl, &rows, &[s], &[t]);
+                }
+                let _ = ri;
+            }
+        }
+        ctx.level_done("skip-and-take-at-the-edge-of-the-64-bit-range");
     }
     // long families: B-tree node splits (> 11 keys do not occur with 4 keys, but > 8 rows per bucket do), VecDeque growth
     let lss: Vec<u64> = vec![0, 1, 5, 16, 17, 39, 40, 41];
